@@ -121,7 +121,7 @@ def classes(case):
 
 @st.composite
 def _cases(draw, large=False):
-    spec = draw(models.model_specs(open_patterns=True))
+    spec = draw(models.model_specs(open_patterns=True, hand_noop=True))
     if draw(st.integers(0, 2)) == 0:
         j = draw(trees.wf_trees(spec, max_nodes=40 if large else 8, wide=14 if large else 3))
     else:
@@ -142,6 +142,7 @@ def _small_cases(ch):
             continue
         yield {'tree': j, 'model': {'name': 'default'}}
         yield {'tree': j, 'model': {'name': 'noop'}}
+        yield {'tree': j, 'model': {'name': 'noop', 'by_override': True}}
 
 
 def _deep_chunks(tier):
